@@ -25,7 +25,8 @@
 
    Failures are collected in `bad` as <<position, scenario, step, operation, property, deviation,
    what, cause, probing call>>: `cause` is read off the names involved, `deviation` is the as-built
-   deviation of spec/Namespace.tla that explains such an answer ("none" = unexplained).  An id / path
+   deviation of spec/Namespace.tla that explains such an answer ("none" = unexplained; one more class is
+   known to the validator only: "FailedCallNotRolledBack", a refused call that changed an answer).  An id / path
    whose answer was wrong once is not judged again in that scenario (one defect, one report).   *)
 EXTENDS Naturals, Integers, Sequences, SequencesExt, FiniteSets, TLC, Json, IOUtils
 
@@ -65,14 +66,14 @@ DirOffers(op, id) ==
 HasName(id, S) == \E i \in 1..Len(id) : id[i] \in S
 Aliased(x, y) == \E i \in 1..Len(meta.alias) : meta.alias[i] = <<x, y>>
 \* Why an answer about `id` can be wrong, told from the names involved (the step's subject included); the first
-\* that applies of: a "yes" about an id that holds an object of the other kind; the "$"-joined text of the id
-\* coincides with that of an object in the catalog / of the subject; a quote in a name; a "$" in a name; a "/" in
-\* a name; a non-ASCII letter; another special character; none of these.
+\* that applies of: a quote in a name; a "yes" about an id that holds an object of the other kind; the "$"-joined
+\* text of the id coincides with that of an object in the catalog / of the subject; a "$" in a name; a "/" in a
+\* name; a non-ASCII letter; another special character; none of these.
 Cause(c, id, subj, yes) ==
   LET both == {id, subj} IN
-  IF yes /\ id \in DOMAIN c THEN "other-kind-same-id"
+  IF \E y \in both : HasName(y, SeqToSet(meta.quoted)) THEN "quoted-name"
+  ELSE IF yes /\ id \in DOMAIN c THEN "other-kind-same-id"
   ELSE IF \E x \in (DOMAIN c \cup {subj}) : Aliased(id, x) THEN "delimiter-alias"
-  ELSE IF \E y \in both : HasName(y, SeqToSet(meta.quoted)) THEN "quoted-name"
   ELSE IF HasName(id, SeqToSet(meta.dollar)) THEN "delimiter-name"
   ELSE IF HasName(id, SeqToSet(meta.slashed)) THEN "path-like-name"
   ELSE IF HasName(id, SeqToSet(meta.nonascii)) THEN "non-ascii-name"
@@ -248,7 +249,9 @@ Step(e) ==
   IN
   /\ bad' = AddBad(allBad)
   /\ m' = m2
-  /\ unk' = unk \cup lost
+  \* (an object that was created but is not found afterwards is of unknown status too)
+  /\ unk' = unk \cup lost \cup {x \in {subj} : created /\ ((Kind(m2, x) = "table" /\ \E i \in tWrong : obs.t[i].id = x)
+                                                            \/ (Kind(m2, x) = "ns" /\ \E i \in nWrong : obs.n[i].id = x))}
   /\ limT' = limT1 \cup {obs.t[i].id : i \in tWrong}
   /\ limN' = limN1 \cup {obs.n[i].id : i \in nWrong}
   /\ limP' = limP \cup {obs.lt[i].id : i \in {j \in 1..Len(obs.lt) : obs.lt[j].id \notin limP /\ LWhat(m2, obs.lt[j], "table", limT1) # ""}}
